@@ -79,7 +79,9 @@ class FakeSocket:
         client = self.backlog.pop(0)
         srv = FakeSocket(self.net, self.owner)
         srv.local = self.local
-        srv.remote = client.local
+        # a connection that was reset while it waited in the accept queue is still handed out by accept(); it has no peer
+        # address any more (getpeername: ENOTCONN)
+        srv.remote = client.local if not client.closed else None
         srv.peer = client
         client.peer = srv
         srv.connected = True
